@@ -267,3 +267,11 @@ Proof.
     assert (0 <= c1 * c2 * (sin y * sin y)) by (apply Rmult_le_pos; [apply Rmult_le_pos; assumption | nra]). nra.
   - apply hav_backward_stable; assumption.
 Qed.
+
+(* the rounding model with all errors zero is the expression GENERATED from the (repaired) source: the model is a model of
+   that formula -- differences first (deldec, delra), then halving, sines, cosines of the two declinations *)
+From PV Require Import Generated.Gcirc.
+Lemma hav_model_is_generated : forall dcrad1 dcrad2 deldec delra,
+  hav_model (deldec / 2) (delra / 2) (cos dcrad1) (cos dcrad2) 0 0 0 0 0 0 0 0 0 0 0
+  = gcirc_sindis2 dcrad1 dcrad2 deldec delra.
+Proof. intros. unfold hav_model, gcirc_sindis2. cbv zeta. rewrite !Rplus_0_r, !Rmult_1_r. ring. Qed.
